@@ -205,15 +205,31 @@ func (c *Config) readFile() error {
 }
 
 func (c *Config) writeFile() error {
-	f, err := os.OpenFile(c.path, os.O_RDWR|os.O_CREATE|os.O_TRUNC, 0644)
+	// write to a temporary file and rename it over the config, so that a crash while
+	// saving leaves either the previous or the new config, never a truncated one
+	tmp := c.path + ".tmp"
+	f, err := os.OpenFile(tmp, os.O_RDWR|os.O_CREATE|os.O_TRUNC, 0644)
 	if err != nil {
 		return fmt.Errorf("error opening config file for writing: %w", err)
 	}
-	defer f.Close()
-	defer f.Sync()
-
-	encoder := yaml.NewEncoder(f)
-	encoder.SetIndent(2)
-	defer encoder.Close()
-	return encoder.Encode(c)
+	err = func() error {
+		defer f.Close()
+		encoder := yaml.NewEncoder(f)
+		encoder.SetIndent(2)
+		if err := encoder.Encode(c); err != nil {
+			return err
+		}
+		if err := encoder.Close(); err != nil {
+			return err
+		}
+		return f.Sync()
+	}()
+	if err == nil {
+		err = os.Rename(tmp, c.path)
+	}
+	if err != nil {
+		os.Remove(tmp)
+		return fmt.Errorf("error writing config file: %w", err)
+	}
+	return nil
 }
